@@ -734,6 +734,89 @@ v("C05", "waitgroup-in-goroutine", "httpgrpc/client.go",
 		time.Sleep(time.Millisecond)
 		b, err = ioutil.ReadAll(reply.Body)""", "R6", "go#", "unbounded wait inside a library goroutine")
 
+# ------------------------------------------------------------------ C06
+v("C06", "d9-req-captured", "inprocgrpc/in_process.go",
+  """	reqCopy, err := cloner.Clone(req)
+	if err != nil {
+		return err
+	}
+	codec := func(out interface{}) error {
+		return cloner.Copy(out, reqCopy)
+	}""", """	codec := func(out interface{}) error {
+		return cloner.Copy(out, req)
+	}""", "R1", "req", "pre-fix D9")
+v("C06", "client-send-no-clone", "inprocgrpc/in_process.go",
+  """	m, err := s.cloner.Clone(m)
+	if err != nil {
+		return err
+	}
+	return writeMessage(s.ctx, s.svrCtx, s.requests, frame{data: m})""", """	return writeMessage(s.ctx, s.svrCtx, s.requests, frame{data: m})""", "R2", "frame.data<-", "request object shared with the handler")
+v("C06", "server-send-clone-skipped-for-small", "inprocgrpc/in_process.go",
+  """	m, err := s.cloner.Clone(m)
+	if err != nil {
+		return err
+	}
+	return writeMessage(s.ctx, nil, s.responses, frame{data: m})""", """	if _, ok := m.(fmt.Stringer); !ok {
+		var err error
+		m, err = s.cloner.Clone(m)
+		if err != nil {
+			return err
+		}
+	}
+	return writeMessage(s.ctx, nil, s.responses, frame{data: m})""", "R2", "frame.data<-", "clone skipped for some message types")
+v("C06", "recv-assigns-pointer", "inprocgrpc/in_process.go",
+  """	if resp.err != nil {
+		return resp.err
+	}
+	return s.cloner.Copy(m, resp.data)""", """	if resp.err != nil {
+		return resp.err
+	}
+	if pm, ok := m.(*interface{}); ok {
+		*pm = resp.data
+		return nil
+	}
+	return s.cloner.Copy(m, resp.data)""", "R2", "use(frame.data)", "received object handed over by reference")
+v("C06", "no-reset", "internal/misc.go",
+  """	pmOut.Reset()
+""", "", "R3", "reset-before-merge", "receive merges into stale destination content")
+v("C06", "default-cloner-after-capture", "inprocgrpc/in_process.go",
+  """	cloner := c.cloner
+	if cloner == nil {
+		cloner = ProtoCloner{}
+	}
+
+	go func() {""", """	cloner := c.cloner
+
+	go func() {""", "R4", "default-cloner", "nil cloner reaches the stream objects")
+v("C06", "resp-stored-for-later", "inprocgrpc/in_process.go",
+  """				gotResponse = true
+				if err := cloner.Copy(resp, r.data); err != nil {
+					return err
+				}""", """				gotResponse = true
+				go func() { _ = cloner.Copy(resp, r.data) }()""", "R1", "resp", "response filled asynchronously after Invoke returned")
+
+# ------------------------------------------------------------------ C20
+v("C20", "capacity-1024", "inprocgrpc/in_process.go",
+  "	requests := make(chan frame, 1)", "	requests := make(chan frame, 1024)", "R1", "make(chan frame)", "requests buffer 1024 frames")
+v("C20", "capacity-from-option", "inprocgrpc/in_process.go",
+  "	responses := make(chan frame, 1)", "	responses := make(chan frame, len(opts)+1)", "R1", "make(chan frame)", "capacity grows with the number of call options")
+v("C20", "async-write", "inprocgrpc/in_process.go",
+  """	return writeMessage(s.ctx, s.svrCtx, s.requests, frame{data: m})""", """	go writeMessage(s.ctx, s.svrCtx, s.requests, frame{data: m})
+	return nil""", "R2", "no-async-handoff", "send returns before the frame took the slot")
+v("C20", "pending-queue", "inprocgrpc/in_process.go",
+  """	reqMu      sync.Mutex
+	sendClosed bool""", """	reqMu      sync.Mutex
+	pending    []frame
+	sendClosed bool""", "R1", "container", "a second queue next to the channel")
+v("C20", "send-with-default", "inprocgrpc/in_process.go",
+  """	select {
+	case ch <- m:
+	case <-ctx.Done():""", """	select {
+	case ch <- m:
+	default:
+		go func() { ch <- m }()
+	case <-ctx.Done():""", "R2", "send-select", "non-blocking send with goroutine fallback")
+
 
 def main():
     if os.path.isdir(OUT):
